@@ -48,22 +48,38 @@ def gen_attr(rng, used, types=ATTR_TYPES, messy_ints=True):
 
 
 QUOTED_NAMES = ["a.b", "lat.1", "v.x.y"]     # variable names that pydap stores quoted (`.` -> %2E)
+# names that DAP quoting changes: blank, brackets, `&`, `.`, a literal `%`, non-ASCII (2- and 3-byte UTF-8)
+QUOTED_ASCII = ["a.b", "lat.1", "a b", "t[0]", "x&y", "p%q", "v.x y"]
+QUOTED_UNICODE = ["t\u00ebmp", "\u65e5\u672c"]
+QUOTED_GROUPS = ["g h", "g.1", "h[2]", "gr\u00fc"]
+QUOTED_DIMS = ["x y", "d.1", "n[i]"]
 
 
 def dap_quote(name):
-    """the stored form of a variable name (only `.` occurs in the generator's alphabet)"""
-    return name.replace(".", "%2E")
+    """the stored form of a name, written from the DAP specification (independent of pydap.lib._quote):
+    the UTF-8 bytes outside `A-Za-z0-9_!~*'"-/%` become %XX (upper-case hex); `/` separates path components"""
+    out = []
+    for b in name.encode("utf-8"):
+        c = chr(b)
+        if c.isascii() and (c.isalnum() or c in "_!~*'\"-/%"):
+            out.append(c)
+        else:
+            out.append("%%%02X" % b)
+    return "".join(out)
 
 
 def dap_unquote(name):
-    return name.replace("%2E", ".")
+    from urllib.parse import unquote
+    return unquote(name)
 
 
 def gen_spec(rng, max_depth=3, groups=True, mixed=True, attrs=True, types=NUM_TYPES, maxvars=4, rank_max=3,
-             var_names=None):
+             var_names=None, group_names=None, dim_names=None):
     """abstract dataset: dims at any level, same short names in different groups, named/anonymous/mixed Dims;
     `var_names`: alphabet of variable names (default NAMES)"""
     var_names = var_names or NAMES
+    group_names = group_names or GROUP_NAMES
+    dim_names = dim_names or NAMES
     all_dims = []   # fq names declared so far (any scope)
     all_vars = []
 
@@ -73,7 +89,7 @@ def gen_spec(rng, max_depth=3, groups=True, mixed=True, attrs=True, types=NUM_TY
         visible = list(visible)
         n_dims = rng.choice([0, 1, 2, 2, 3]) if depth == 0 else rng.choice([0, 1, 2])
         for _ in range(n_dims):
-            name = rng.choice(NAMES)
+            name = rng.choice(dim_names)
             if name in used_dims:
                 continue
             used_dims.add(name)
@@ -108,7 +124,7 @@ def gen_spec(rng, max_depth=3, groups=True, mixed=True, attrs=True, types=NUM_TY
             body.append(v)
         if groups and depth < max_depth:
             for _ in range(rng.choice([0, 1, 1, 2]) if depth == 0 else rng.choice([0, 0, 1, 2])):
-                name = rng.choice(GROUP_NAMES)
+                name = rng.choice(group_names)
                 if name in used_names:
                     continue
                 used_names.add(name)
